@@ -567,6 +567,9 @@ func extractHavingAggregates(having string, aggs map[string]aggregator.Aggregate
 	var spans []span
 	var calls []string
 	for _, m := range pattern.FindAllStringSubmatchIndex(having, -1) {
+		if insideStringLiteral(having, m[0]) {
+			continue // call-like text inside a quoted literal ('%max(x)%') is data
+		}
 		nm := strings.ToLower(having[m[2]:m[3]])
 		fn, ok := functions.Get(nm)
 		if !ok || fn.GetType() != functions.TypeAggregation {
@@ -615,6 +618,22 @@ func extractHavingAggregates(having string, aggs map[string]aggregator.Aggregate
 		out = out[:s.start] + repl[i] + out[s.closeParen+1:]
 	}
 	return out
+}
+
+// insideStringLiteral reports whether position pos of s lies inside a '...' or "..." literal
+func insideStringLiteral(s string, pos int) bool {
+	var quote byte
+	for i := 0; i < pos && i < len(s); i++ {
+		c := s[i]
+		if quote == 0 {
+			if c == '\'' || c == '"' {
+				quote = c
+			}
+		} else if c == quote {
+			quote = 0
+		}
+	}
+	return quote != 0
 }
 
 // validateWindowAnalyticArgs 校验窗口查询里分析函数参数不得引用裸原始列：
